@@ -37,6 +37,8 @@ def gen_prior_stmt(rng, h):
     if kind == "U":
         lo = _finite(rng)
         w = rng.choice([1e-3, 0.5, 1.0, 10.0, 100.0]) * rng.uniform(0.5, 1.5)
+        if rng.random() < 0.06:
+            return {"op": "prior", "h": h, "kind": "U", "args": [-w, 0.0]}  # an upper limit that is falsy
         return {"op": "prior", "h": h, "kind": "U", "args": [lo, lo + w]}
     if kind == "LU":
         lo = 10 ** rng.uniform(-6, 2)
